@@ -32,7 +32,7 @@ from sim.runner import Outcome
 ID = "C16"
 LEVEL = "exploration"
 ISOLATE = True
-RUN_WALL_S = 60
+RUN_WALL_S = 150
 TIERS = {
     "quick": {"cases": 4_000, "episode": 1, "selftest": 48, "wall_cap_s": 900, "shrink_s": 90},
     "thorough": {"cases": 1_000_000, "episode": 1, "selftest": 512, "wall_cap_s": 4 * 3600, "shrink_s": 180},
@@ -106,7 +106,7 @@ def baseline_in_pristine_child(xml_bytes, pkts):
             warnings.simplefilter("ignore")
             d = XtcePacketDefinition.from_xtce(io.BytesIO(xml_bytes))
         return (xf.fingerprint(d), decode_all(d, pkts))
-    res = in_pristine_child(job, wall_s=30, raise_errors=False)
+    res = in_pristine_child(job, wall_s=100, raise_errors=False)
     return ("ok", res[1][0], res[1][1]) if res[0] == "ok" else ("error", res[1], None)
 
 
@@ -162,7 +162,7 @@ def same_rendering_first(xml_bytes, prefix):
             warnings.simplefilter("ignore")
             d = XtcePacketDefinition.from_xtce(io.BytesIO(xml_bytes), xtce_ns_prefix=prefix)
         return full_view(d)
-    res = in_pristine_child(job, wall_s=30, raise_errors=False)
+    res = in_pristine_child(job, wall_s=100, raise_errors=False)
     return ("ok", res[1]) if res[0] == "ok" else ("error", res[1])
 
 
